@@ -304,13 +304,20 @@ def scale(profiles, quick=24, thorough=1500, **kw):
     return d
 
 
+def abyss(n=66000):
+    """thorough tier only, release profile: one plan of n stages - beyond what the model can be run alongside
+    (its executable lists make 8000 stages take minutes) - under the implementation-side oracles alone"""
+    return {"engine": "plan", "args": {"profiles": "plan", "abyss": n}, "thorough": {"cases": 0}, "search": {"cases": 0},
+            "profile": "release", "tiers": ["thorough"], "nopar": False}
+
+
 _SCALE = {
     "C01": [scale("vwide,fat,fat,fat", quick=48)],
-    "C02": [scale("vwide,deep", quick=16), plan("phname", quick=300, thorough=6000)],
-    "C03": [scale("deep", quick=14)],
+    "C02": [scale("vwide,deep", quick=16), plan("phname", quick=300, thorough=6000), abyss()],
+    "C03": [scale("deep", quick=14), abyss()],
     "C05": [scale("fat,vwide", quick=16)],
     "C07": [scale("fat", quick=16)],
-    "C10": [scale("vwide,deep,fat", quick=30)],
+    "C10": [scale("vwide,deep,fat", quick=30), abyss()],
     "C18": [scale("vwide,deep,fat", quick=24), plan("phname", quick=200, thorough=4000)],
     "C19": [scale("vwide,fat", quick=16), plan("phname", quick=200, thorough=4000)],
     "C20": [scale("vwide,deep", quick=10), plan("phname", quick=200, thorough=4000)],
